@@ -187,7 +187,7 @@ def run_job(spec):
         if spec.get("engine") == "L":
             from . import engine_l
             r = engine_l.explore(sc, root, spec["first"], spec.get("gran", "line"), tuple(spec.get("chunk", (0, 1))),
-                                 time_cap=spec.get("time_cap"))
+                                 time_cap=spec.get("time_cap"), bound=spec.get("lbound", 1))
         else:
             r = engine_t.explore(sc, root, bound=spec.get("bound"), observer=observer,
                                  max_exec=spec.get("max_exec"), time_cap=spec.get("time_cap"),
@@ -223,6 +223,7 @@ def run_job(spec):
         seq = cache.get(frozenset(), {})
         return {"name": spec.get("label", spec["name"]), "spec": spec, "executions": r["executions"], "states": r["states"],
                 "preemption_points": r.get("preemption_points"), "void_preemptions": r.get("void_preemptions"),
+                "second_preemption_points": r.get("second_preemption_points"),
                 "transitions": r["transitions"], "terminals": len(r["terminals"]), "verdicts": verdicts,
                 "sequential_terminals": len(seq), "capped": r["capped"], "wall": time.time() - t0,
                 "passes": r.get("passes"), "executions_all_passes": r.get("executions_all_passes"),
@@ -245,19 +246,21 @@ def run_schedule(sc, root, schedule, trace_out=None):
     """Re-execute one recorded schedule of either engine."""
     if schedule and schedule[0] == "L":
         from . import engine_l
-        return engine_l.run_one(sc, root, schedule[1], schedule[2], schedule[3])
+        return engine_l.run_one(sc, root, schedule[1], schedule[2], schedule[3],
+                                second=tuple(schedule[4]) if len(schedule) > 4 else None)
     return engine_t.run_execution(sc, root, schedule, set(), explore=False, bound=None, trace_out=trace_out)
 
 
-def line_level(spec, gran="line", shares=4):
+def line_level(spec, gran="line", shares=4, lbound=1):
     """Engine-L jobs for a two-thread scenario: each thread as the one that is pre-empted, the pre-emption points
     dealt out over `shares` jobs.  The scenario name is kept (signatures coincide with engine T's)."""
     out = []
     for first in sorted(spec["threads"]):
         for k in range(shares):
             d = dict(spec)
-            d.update({"engine": "L", "gran": gran, "first": first, "chunk": [k, shares],
-                      "label": "%s [%s-level, one pre-emption of %s, share %d/%d]" % (spec["name"], gran, first, k + 1, shares)})
+            d.update({"engine": "L", "gran": gran, "first": first, "chunk": [k, shares], "lbound": lbound,
+                      "label": "%s [%s-level, %s of %s, share %d/%d]" % (
+                          spec["name"], gran, "one pre-emption" if lbound == 1 else "two pre-emptions, the first", first, k + 1, shares)})
             d.pop("bound", None)
             out.append(d)
     return out
